@@ -127,7 +127,7 @@ def run(ctx):
         v.key = v.key.replace("R05.4", "R12.5", 1)
     r5.violations = [v for v in r5.violations if "Object" in v.key]
     import c02
-    binders = {f.path for f in ctx.prog.hand_fns() if f.module.startswith("eval::bind")}
+    binders = {f.path for f in ctx.prog.hand_fns() if f.module.startswith(__import__("anchors").binder_module(ctx.prog))}
     r6 = c02.rule_R02_1(ctx, restrict_fns=binders, rule_id="R12.6")
     r6.title = ("property/index assignment never evaluates user code or locks "
                 "the object while holding the object's lock (R02.1 on the binder)")
